@@ -74,6 +74,20 @@ Proof.
   destruct (rid (getn (ns s) x)); destruct (gfac (gi c x)); cbn [fst ns set_farm set_ns]; apply G.
 Qed.
 
+Lemma put_job1_ns c acc x : ns (fst (put_job1 c acc x)) = ns (fst (put_job c acc x)).
+Proof. unfold put_job1. destruct (put_job c acc x) as [s' o]. reflexivity. Qed.
+
+Lemma put_job1_jobs c acc x : jobs (fst (put_job1 c acc x)) = rem1 x (jobs (fst acc)).
+Proof. unfold put_job1. destruct (put_job c acc x) as [s' o]. reflexivity. Qed.
+
+Lemma rem1_other x y l : y <> x -> In y l -> In y (rem1 x l).
+Proof.
+  intros N. induction l as [|a l IH]; cbn [rem1 In]; [tauto|].
+  destruct (a =? x) eqn:E.
+  - apply Nat.eqb_eq in E. subst a. intros [H|H]; [congruence|exact H].
+  - cbn [In]. intros [H|H]; [left; exact H|right; apply IH; exact H].
+Qed.
+
 Theorem fault_keeps_jobs c : forall js k acc acc' raised,
   NoDup js ->
   put_jobs_fault c k js acc = (acc', raised) ->
@@ -89,18 +103,17 @@ Proof.
   induction js as [|x js IH]; intros k acc acc' raised ND H R; cbn [put_jobs_fault] in H.
   - inversion H; subst. discriminate.
   - apply NoDup_cons_iff in ND. destruct ND as [Nx ND'].
-    assert (STEP : forall k', put_jobs_fault c k' js (put_job c acc x) = (acc', raised) ->
+    assert (STEP : forall k', put_jobs_fault c k' js (put_job1 c acc x) = (acc', raised) ->
               exists done kept x0, x :: js = done ++ x0 :: kept /\
                 (forall y, In y (x0 :: kept) -> getn (ns (fst acc')) y = getn (ns (fst acc)) y) /\
                 (forall y, In y (x0 :: kept) -> In y (jobs (fst acc)) -> In y (jobs (fst acc')))).
-    { intros k' H'. destruct (IH k' (put_job c acc x) acc' raised ND' H' R) as (dn & kp & x0 & E & G & J).
+    { intros k' H'. destruct (IH k' (put_job1 c acc x) acc' raised ND' H' R) as (dn & kp & x0 & E & G & J).
       exists (x :: dn), kp, x0. split; [rewrite E; reflexivity|].
       assert (NI : forall y, In y (x0 :: kp) -> y <> x).
       { intros y Hy Ey. subst y. apply Nx. rewrite E. apply in_or_app. right. exact Hy. }
       split.
-      - intros y Hy. rewrite (G y Hy). apply put_job_ns_other. apply NI. exact Hy.
-      - intros y Hy Hj. apply (J y Hy). rewrite put_job_jobs. unfold rem. apply filter_In.
-        split; [exact Hj|]. apply negb_true_iff, Nat.eqb_neq. apply NI. exact Hy. }
+      - intros y Hy. rewrite (G y Hy). rewrite put_job1_ns. apply put_job_ns_other. apply NI. exact Hy.
+      - intros y Hy Hj. apply (J y Hy). rewrite put_job1_jobs. apply rem1_other; [apply NI; exact Hy|exact Hj]. }
     destruct (rid (getn (ns (fst acc)) x)) as [r|] eqn:Rx.
     + apply (STEP k). exact H.
     + destruct k as [|[|k']].
